@@ -1365,6 +1365,7 @@ class Atoms:
                      charges=np.take(self.charges, idx, axis=0),
                      atom_type_masses=self.atom_type_masses,
                      atom_type_elements=self.atom_type_elements,
+                     atom_type_labels=self.atom_type_labels,
                      groups=np.take(self.groups, idx, axis=0),
                      cell=self.cell)
 
